@@ -231,6 +231,18 @@ retry:
      * After scan border, optimistic verify support this is atomic.
      */
     permutation perm(bn->get_permutation().get_body());
+    /**
+     * A border that is left without having produced a tuple of its own must
+     * still be recorded, also when the scan ends while positioned on one of its
+     * layer links: a later insert into this border has to be detectable.
+     */
+    auto log_border_without_hit = [&tuple_pushed_num, &node_version_vec,
+                                   &v_at_fb, &bn]() {
+        if (!tuple_pushed_num && node_version_vec != nullptr) {
+            node_version_vec->emplace_back(
+                    std::make_pair(v_at_fb, bn->get_version_ptr()));
+        }
+    };
     // check all elements in border node.
     for (std::size_t i = 0, n = perm.get_cnk(); i < n; ++i) {
         std::size_t index = perm.get_index_of_rank(right_to_left ? n-i-1 : i);
@@ -309,9 +321,13 @@ retry:
                                      r_key.size() < full_key.size()
                                              ? r_key.size()
                                              : full_key.size());
-                if (ret_cmp < 0) { return status::OK_SCAN_END; }
+                if (ret_cmp < 0) {
+                    log_border_without_hit();
+                    return status::OK_SCAN_END;
+                }
                 if (ret_cmp == 0) {
                     if (r_key.size() <= full_key.size()) {
+                        log_border_without_hit();
                         return status::OK_SCAN_END;
                     }
                     arg_r_key = r_key;
@@ -330,6 +346,7 @@ retry:
                 goto retry; // NOLINT
             }
             if (max_size != 0 && tuple_list.size() >= max_size) {
+                log_border_without_hit();
                 return status::OK_SCAN_END;
             }
         } else {
